@@ -4,7 +4,7 @@
    file).  Executable definitions only. *)
 From Coq Require Import NArith List Bool Arith.
 From LC Require Import Base.Lib Gen.Bopomofo_gen Gen.Editor_gen Model.Syllable Model.Composition
-     Model.Conversion Model.Editor.
+     Model.Conversion Model.Engine Model.Editor.
 Import ListNotations.
 Open Scope nat_scope.
 
@@ -158,4 +158,13 @@ Definition m_valid_conv (e : med) (c : composition) (ivs : list interval) : bool
   match engine (sh e) with
   | EngSimple => list_eqb interval_eqb (simple_convert (m_lookup1 d) spell c) ivs
   | k => valid_conversion spell (fun syms => md_lookup d (engine_fuzzy k) (syl_prefix syms)) c ivs
+  end.
+
+(* the engines themselves (Model/Engine.v): every alternative, best first, and whether the model is exact
+   (no candidate list longer than 20 was ever sorted - see Engine.v on sort_unstable_by_key) *)
+Definition m_engine_alts (e : med) (c : composition) : outcome (list (list interval) * bool) :=
+  let d := dict (sh e) in
+  match engine (sh e) with
+  | EngSimple => Ok ([simple_convert (m_lookup1 d) spell c], false)
+  | k => chewing_convert_x sort_by_len spell (fun syms => md_lookup d (engine_fuzzy k) (syl_prefix syms)) c
   end.
